@@ -96,12 +96,16 @@ def scenarios(tier, seed):
             out.append(dict(family="gibbs/mn", mode="gibbs", kind="mn", nodes=nodes, scopes=scopes, card=card, states=C.STATE_STYLES[k % len(C.STATE_STYLES)], hashseed=k % 2))
     for net in NETS:
         nodes = NETS[net]["nodes"]
-        for style in ["default", "str", "permint"]:
+        for style in ["default", "str", "permint", "permrange"]:
             out.append(dict(family="forward", mode="sample", sampler="forward", net=net, size=1, states=style, hashseed=0, budget_s=80, max_paths=400))
+            if style == "permrange":
+                continue
             out.append(dict(family="forward", mode="sample", sampler="forward", net=net, size=2, states=style, hashseed=1, budget_s=80, max_paths=1500))
             out.append(dict(family="forward", mode="sample", sampler="forward", net=net, size=1, states=style, latents=[nodes[0]], include_latents=False, hashseed=0))
             out.append(dict(family="forward", mode="sample", sampler="forward", net=net, size=1, states=style, latents=[nodes[0]], include_latents=True, hashseed=1))
             out.append(dict(family="forward", mode="sample", sampler="forward", net=net, size=1, states=style, partial=nodes[0], hashseed=0))
+            out.append(dict(family="forward", mode="sample", sampler="forward", net=net, size=2, states=style, partial=nodes[1], partial_index=[5, 0], hashseed=1,
+                            budget_s=80, max_paths=1500))
             for ev in ([(nodes[-1], 0)], [(nodes[0], 1)], [(nodes[1], 0), (nodes[-1], 1)]):
                 out.append(dict(family="lw", mode="sample", sampler="lw", net=net, size=1, states=style, ev=[list(e) for e in ev], hashseed=0, budget_s=80, max_paths=400))
                 out.append(dict(family="rejection", mode="sample", sampler="rejection", net=net, size=1, states=style, ev=[list(e) for e in ev], hashseed=1,
@@ -199,7 +203,9 @@ def run_sample(desc, M):
     partial = None
     if desc.get("partial"):
         pv = desc["partial"]
-        partial = pd.DataFrame({pv: [card[pv] - 1] * size})  # BayesianModelSampling takes partial samples as state numbers
+        # BayesianModelSampling takes partial samples as state numbers; rows are matched by POSITION whatever the frame's index is
+        pvals = [(card[pv] - 1 - r) % card[pv] for r in range(size)]
+        partial = pd.DataFrame({pv: pvals}, index=desc.get("partial_index", list(range(size))))
     if not hasattr(M, "agg"):
         M.agg = {}
         M.cut_mass = Fraction(0)
@@ -251,13 +257,13 @@ def run_sample(desc, M):
                 if sampler == "lw":
                     # a likelihood-weighted sample may contradict the evidence only with weight zero
                     M.check(jt[tuple(a[v] for v in nodes)] > 0 or float(df.iloc[r]["_weight"]) == 0.0, "zero-probability assignments carry weight zero", detail=str(a))
-                else:
+                elif partial is None:  # values forced through partial_samples may have probability zero
                     M.check(jt[tuple(a[v] for v in nodes)] > 0, "zero-probability assignments never occur", detail=str(a))
             for v, s in ev:
                 if v in a:
                     M.check(a[v] == s, "evidence columns are fixed to the evidence", detail=f"{v}: {a[v]} vs {s}")
             if partial is not None and desc["partial"] in a:
-                M.check(a[desc["partial"]] == card[desc["partial"]] - 1, "partial samples are respected")
+                M.check(a[desc["partial"]] == pvals[r], "partial samples are respected row by row (by position)", detail=f"row {r}: {a[desc['partial']]} vs {pvals[r]}")
             if sampler == "lw" and len(a) == len(nodes):
                 w = Fraction(1)
                 for v, s in ev:
@@ -340,9 +346,35 @@ def run_seed(desc, M):
     from pgmpy.sampling import BayesianModelSampling, GibbsSampling
     M.declare([])
     model, d, tabs = net_model(dict(net=list(NETS)[desc["variant"]], states="str"))
-    s1 = BayesianModelSampling(model).forward_sample(size=50, seed=42, show_progress=False)
-    s2 = BayesianModelSampling(model).forward_sample(size=50, seed=42, show_progress=False)
-    M.check(s1.equals(s2), "a fixed seed reproduces the same forward samples")
+    from pgmpy.factors.discrete import State
+    nodes = d["nodes"]
+    evs = [State(nodes[0], C.sname(d, nodes[0], 1))]
+    for seed in (42, 0, 7):
+        s1 = BayesianModelSampling(model).forward_sample(size=50, seed=seed, show_progress=False)
+        s2 = BayesianModelSampling(model).forward_sample(size=50, seed=seed, show_progress=False)
+        M.check(s1.equals(s2), "a fixed seed reproduces the same forward samples", detail=f"seed {seed}")
+        r1 = BayesianModelSampling(model).rejection_sample(evs, size=40, seed=seed, show_progress=False)
+        r2 = BayesianModelSampling(model).rejection_sample(evs, size=40, seed=seed, show_progress=False)
+        M.check(r1.equals(r2), "a fixed seed reproduces the same rejection samples", detail=f"seed {seed}")
+        l1 = BayesianModelSampling(model).likelihood_weighted_sample(evs, size=40, seed=seed, show_progress=False)
+        l2 = BayesianModelSampling(model).likelihood_weighted_sample(evs, size=40, seed=seed, show_progress=False)
+        M.check(l1.equals(l2), "a fixed seed reproduces the same likelihood-weighted samples", detail=f"seed {seed}")
+        g1 = GibbsSampling(model).sample(size=20, seed=seed)
+        g2 = GibbsSampling(model).sample(size=20, seed=seed)
+        M.check(g1.equals(g2), "a fixed seed reproduces the same Gibbs samples", detail=f"seed {seed}")
+        m1_ = model.simulate(n_samples=30, seed=seed, show_progress=False)
+        m2_ = model.simulate(n_samples=30, seed=seed, show_progress=False)
+        M.check(m1_.equals(m2_), "a fixed seed reproduces the same simulate() output", detail=f"seed {seed}")
+        e1 = model.simulate(n_samples=30, evidence={nodes[0]: C.sname(d, nodes[0], 1)}, seed=seed, show_progress=False)
+        e2 = model.simulate(n_samples=30, evidence={nodes[0]: C.sname(d, nodes[0], 1)}, seed=seed, show_progress=False)
+        M.check(e1.equals(e2), "a fixed seed reproduces the same simulate(evidence) output", detail=f"seed {seed}")
+    # Gibbs sampling with a latent variable: latent columns only when requested
+    model.latents = {nodes[0]}
+    gl = GibbsSampling(model)
+    out1 = gl.sample(size=5, seed=1)
+    out2 = gl.sample(size=5, seed=1, include_latents=True)
+    M.check(nodes[0] not in out1.columns and nodes[0] in out2.columns, "Gibbs samples contain latent columns only when requested", detail=f"{list(out1.columns)} / {list(out2.columns)}")
+    model.latents = set()
     g1 = GibbsSampling(model).sample(size=30, seed=3)
     g2 = GibbsSampling(model).sample(size=30, seed=3)
     M.check(g1.equals(g2), "a fixed seed reproduces the same Gibbs samples")
